@@ -25,6 +25,7 @@ Fixpoint resolve (p : prog) (ns : list name) (t : ty) : res ty :=
   | Cont k a => bind (resolve p ns a) (fun a' => Ok (Cont k a'))
   | TypeOf a => bind (resolve p ns a) (fun a' => Ok (TypeOf a'))
   | DictOf k v => bind (resolve p ns k) (fun k' => bind (resolve p ns v) (fun v' => Ok (DictOf k' v')))
+  | UnionPair pep a b => bind (resolve p ns a) (fun a' => bind (resolve p ns b) (fun b' => Ok (UnionPair pep a' b')))
   | _ => Ok t
   end.
 
